@@ -3,11 +3,11 @@ from props import endpoint
 
 
 def check(pid, tier, replay):
-    names = ["dra", "drb", "dsa", "dsb", "sr", "mx", "dpk"] if tier == "thorough" else ["ra", "rb", "sa", "sb", "sr", "mx", "pk"]
+    names = ["dra", "drb", "dsa", "dsb", "sr", "mx", "dpk", "dwn"] if tier == "thorough" else ["ra", "rb", "sa", "sb", "sr", "mx", "pk", "wn"]
     gens = [("endpoint/CancelGen", "endpoint/CancelGen_%s.cfg" % n) for n in names] + endpoint.mix_gens(pid, tier)
     endpoint.run(pid, tier, replay, ("C16_", "C02_OwnOutcome", "C02_Resolves_Q", "C10_Exact", "C10_NotBefore", "C10_NoSpuriousError", "C08_Wake", "C07_Fifo", "C11_ContinuationId"), [("endpoint/Cancel", None)], gens,
                  "recv side: every sequence up to the depth bound over {recv, cancel the pending recv, 1-frame delivery, first / second frame of a 2-frame delivery}, auto-accept on and off, "
                  "closed by enough recv calls to take everything; send side: every sequence over {unsettled send of 1 frame / 3 link-level frames / 4 transport frames, send cancelled "
                  "after 30 scheduler turns, cancel, yield, grant 1 / 3 credits, settle the oldest delivery} with channel capacities 1 (and 256, where a send is never suspended between its frames) and a transport pipe of 4 MiB or 200 bytes, sends dropped after 1 / 2 / 30 scheduler turns, closed "
-                 "by a generous grant and two further sends; parked part: every sequence over {batchable send, a send frozen after its first poll behind a full channel while a grant / a settlement of the oldest "
+                 "by a generous grant and two further sends; window part: the peer's session window holds one frame, every sequence over {send of 1 / 3 link-level frames, cancel the pending send, reopen the window to 20 / 1, settle, yield}; parked part: every sequence over {batchable send, a send frozen after its first poll behind a full channel while a grant / a settlement of the oldest "
                  "delivery is processed and then dropped, settle the oldest, yield}, closed by two sends that live on the credit granted meanwhile, one settling disposition for everything and the outcomes of all batchable sends; distinct = distinct scripts" + endpoint.MIX_RULE)
